@@ -100,6 +100,11 @@ def gen_cases(rng, tier):
     return out
 
 
+BB_SCENARIOS = ["http_front_no_listener", "https_front_no_listener", "tcp_front_no_listener", "remove_cluster_unknown",
+                "remove_backend_unknown", "remove_backend_wrong_id", "cert_no_https_listener", "backend_duplicate",
+                "http_front_duplicate", "http_front_ok", "remove_front_unknown", "status"]
+
+
 def worker_cases():
     """every combination of (good simple fields) x (answer template good/bad) x (HSTS block absent/good/bad)"""
     import os
@@ -109,6 +114,8 @@ def worker_cases():
         for f in sorted(os.listdir(d)):
             if f.endswith(".case"):
                 out += vlib.parse_cases(open(os.path.join(d, f)).read())
+    for sc in BB_SCENARIOS:
+        out.append(Case("bb_" + sc, [["scenario", sc]]))
     for ct in (5, 9):
         for st in (0, 1):
             for ans in (0, 1, 2):
@@ -139,7 +146,7 @@ def extra_stage(tier, rng, work):
             elif ob and ob[0] == "ok":
                 accepted += 1
                 # an accepted patch must have been applied (connect_timeout is in every patch)
-                if ob[1] != c.ops[0][1]:
+                if c.ops[0][0] != "scenario" and ob[1] != c.ops[0][1]:
                     viols.append((c, "worker-patch-not-applied", "update_config answered ok but connect_timeout is %s" % ob[1]))
         for (vc, vt) in o["viol"]:
             viols.append((c, vc, vt))
